@@ -184,10 +184,11 @@ func H_C03_history() {
 				}
 				nf := vFARSpec{id: 3, action: ActionForward, uplink: true}
 				ies = append(ies, np.create(), nf.create())
-			case 3: // update QER: close the gates
-				u := qers[k][0]
+			case 3: // update ONE QER (an application QER, or the session-level QER alone): close the gates
+				qi := vChoose("which_qer", len(qers[k]))
+				u := qers[k][qi]
 				u.gate = 0x5
-				qers[k][0] = u
+				qers[k][qi] = u
 				ies = append(ies, u.update())
 			case 5: // update a PDR's match (new TEID), then a FAR update that cannot be parsed: rejected as a whole
 				up := pdrs[k][0]
